@@ -55,7 +55,8 @@ fn run_slice(engine: &str, rlimit: Option<u64>, timeout_ms: u64, lines: &[String
         }
         // A time-out is retried once in a fresh child: a stall of the whole machine (all workers timing out at the
         // same instant) must not be reported as a hang of the code under test. A real hang times out twice.
-        let mut attempt = 0;
+        // (a run with AXH_TIMEOUT_SCALE set is itself the patient re-run of a timed-out case: no second attempt)
+        let mut attempt = if std::env::var("AXH_TIMEOUT_SCALE").is_ok() { 1 } else { 0 };
         loop {
             let sent = writeln!(w.stdin, "{}", line).and_then(|_| w.stdin.flush());
             let res = if sent.is_err() {
